@@ -73,6 +73,27 @@ def T():
     return _T
 
 
+class RowArg:
+    """A row of wires handed to the system under test as some iterable (list / tuple / one-shot iterator / generator /
+    slice of a handle).  The harness keeps the items for its log; `arg()` builds the object actually passed."""
+    FORMS = ["list", "tuple", "iterator", "generator"]
+
+    def __init__(self, ch, items, one_shot_ok=False):
+        # one-shot forms only where the documented parameter type is Iterable; where it is Sequence (the tail-loop rows)
+        # a correct implementation may walk the argument twice
+        self.items = list(items)
+        self.form = self.FORMS[ch.weighted([3, 1, 1 if one_shot_ok else 0, 1 if one_shot_ok else 0], "row-form")]
+
+    def arg(self):
+        if self.form == "list":
+            return list(self.items)
+        if self.form == "tuple":
+            return tuple(self.items)
+        if self.form == "iterator":
+            return iter(list(self.items))
+        return (x for x in list(self.items))
+
+
 class Discard(Exception):
     """A builder call raised on a well-formed program: the run is outside C01's antecedent."""
 
@@ -245,7 +266,12 @@ class Actor:
             a = tuple(fresh(x) for x in a)
             sim.ctx.probe("equal_but_not_identical_handles")
         try:
-            r = fn(*a, **kw)
+            if any(isinstance(x, RowArg) for x in a):
+                if any(x.form in ("iterator", "generator") for x in a if isinstance(x, RowArg)):
+                    sim.ctx.probe("row_given_as_one_shot_iterator")
+                r = fn(*[x.arg() if isinstance(x, RowArg) else x for x in a], **kw)
+            else:
+                r = fn(*a, **kw)
         except Exception as e:  # noqa: BLE001
             sim.ctx.ev(self.id, name, sim.describe(a, kw), f"raised {type(e).__name__}: {str(e)[:120]}")
             raise Discard(f"{name}:{type(e).__name__}") from e
@@ -253,10 +279,44 @@ class Actor:
         sim.ctx.steps += 1
         return r
 
+    def respell(self, wires):
+        """The same wires written another way: a node for its output 0, negative indices, slices of the producer's handle
+        (`n[1:]`, `n[:-1]`, `n[-2:]`, `*n`) - every spelling denotes the ports it would denote on range(count)."""
+        sim = self.sim
+        if not getattr(sim, "respell_wires", False):
+            return wires
+        ch = sim.ctx.ch
+        out, i = [], 0
+        while i < len(wires):
+            p = wires[i]
+            h = p.node
+            n = h._num_out_ports
+            j = i
+            while j + 1 < len(wires) and wires[j + 1].node.idx == h.idx and wires[j + 1].offset == wires[j].offset + 1:
+                j += 1
+            if n is not None and ch.coin(1, 3, "spell-as-slice"):
+                a, b = p.offset, wires[j].offset + 1
+                forms = [lambda: h[a:b], lambda: h[a - n:b], lambda: h[a:b + 5] if b == n else h[a:b - n],
+                         lambda: h[a:] if b == n else h[a:b], lambda: h[:b] if a == 0 else h[a:b]]
+                got = list(forms[ch.draw(len(forms), "slice-form")]())
+                sim.ctx.probe("wires_spelled_as_slice")
+                out.extend(got)
+                i = j + 1
+                continue
+            if p.offset == 0 and ch.coin(1, 3, "spell-as-node"):
+                out.append(h)
+                sim.ctx.probe("wire_spelled_as_node")
+            elif n is not None and ch.coin(1, 3, "spell-with-negative-index"):
+                out.append(h[p.offset - n])
+            else:
+                out.append(p)
+            i += 1
+        return out
+
     def add_op(self, op, ins, out_tys, md=None, opname=None):
         """Add a dataflow op through add_op / add(Command) / extend."""
         ch = self.sim.ctx.ch
-        wires = [w.wire for w in ins]
+        wires = self.respell([w.wire for w in ins])
         how = ch.draw(3, "how-add")
         name = opname or type(op).__name__
         if self.tmodel is not None and how != 0 and md is None and ins and len(out_tys) >= len(ins):
@@ -682,6 +742,7 @@ class BuilderSim:
         self.max_depth = 1 + ch.draw(4, "max-depth")
         self.max_row_width = ch.draw(4, "max-row")
         self.fresh_handles = self.features.get("fresh_handles", True) and ch.coin(1, 4, "f-fresh-handles")
+        self.respell_wires = self.features.get("respell_wires", True) and ch.coin(1, 3, "f-respell-wires")
         # size class (swarm): some programs are several times longer, nest deeper and use wide rows
         self.large = bool(self.features.get("large", root_inputs is None and ch.coin(1, 25, "size-class-large")))
         if self.large:
@@ -741,6 +802,8 @@ class BuilderSim:
             return f"builder@n{x.parent_node.idx}"
         if isinstance(x, (list, tuple)):
             return [self._d(y) for y in x]
+        if isinstance(x, RowArg):
+            return [x.form, [self._d(y) for y in x.items]]
         return repr(x)[:100]
 
     def describe_ret(self, r):
@@ -1244,7 +1307,7 @@ class BuilderSim:
         ji = self.pick_args(a, 2)
         rest = self.pick_args(a, 2)
         jo = self.gen_row(2)
-        b = a.call("add_tail_loop", a.b.add_tail_loop, [w.wire for w in ji], [w.wire for w in rest])
+        b = a.call("add_tail_loop", a.b.add_tail_loop, RowArg(ch, [w.wire for w in ji]), RowArg(ch, [w.wire for w in rest]))
         a.open_children += 1
         a.nodes.append(b.parent_node)
         a.dep_local([*ji, *rest], b.parent_node.idx)
@@ -1407,7 +1470,7 @@ class BuilderSim:
         elif kind == "conditional":
             n = a.call("insert_conditional", a.b.insert_conditional, sub.root_builder, wires[0], *wires[1:])
         else:
-            n = a.call("insert_tail_loop", a.b.insert_tail_loop, sub.root_actor.b, wires[:len(ri[0])], wires[len(ri[0]):])
+            n = a.call("insert_tail_loop", a.b.insert_tail_loop, sub.root_actor.b, RowArg(ch, wires[:len(ri[0])]), RowArg(ch, wires[len(ri[0]):]))
         a.nodes.append(n)
         a.dep_local(ws, n.idx)
         self.handle(n, len(out_tys), f"insert_{kind}")
@@ -1562,7 +1625,11 @@ class ModuleCtl:
     def annotate(self, node):
         """Metadata written on a module-level node after the fact (`node.metadata[...] = ...`)."""
         md = self.sim.maybe_meta()
-        if md is not None:
+        if md is not None and self.sim.ctx.ch.coin(1, 3, "replace-the-metadata-dictionary"):
+            nd = self.sim.hugr[node]
+            nd.metadata = {**nd.metadata, **md}  # NodeData is a plain record: its dictionary can be replaced as a whole
+            self.sim.ctx.probe("metadata_dictionary_replaced")
+        elif md is not None:
             self.sim.hugr[node].metadata.update(md)
             self.sim.meta[node.idx] = md
             self.sim.ctx.ev(0, "annotate", node.idx)
@@ -1764,7 +1831,11 @@ def run_insert_leg(ctx, probe_handle=None):
             node = host.insert_nested(sb, *wires)
         elif kind == "tailloop":
             nji = len(op.just_inputs)
-            node = host.insert_tail_loop(sb, wires[:nji], wires[nji:])
+            ra, rb = RowArg(ch, wires[:nji]), RowArg(ch, wires[nji:])
+            ctx.ev("host", "rows given as", [ra.form, rb.form])
+            if "iterator" in (ra.form, rb.form) or "generator" in (ra.form, rb.form):
+                ctx.probe("row_given_as_one_shot_iterator")
+            node = host.insert_tail_loop(sb, ra.arg(), rb.arg())
         elif kind == "cfg":
             node = host.insert_cfg(sub.root_builder, *wires)
         else:
